@@ -349,6 +349,7 @@ def gen_doc(rng, ntab=None, table_entry=False, zero_array=True):
         tables.append({'name': tn, 'cols': cols, 'rows': rows})
     # header
     hdr = []
+    hdrwrap = {}
     if rng.random() < 0.6:
         usedk = set()
         for _ in range(rng.randrange(1, 5)):
@@ -370,12 +371,18 @@ def gen_doc(rng, ntab=None, table_entry=False, zero_array=True):
             elif k == 1:
                 val = rng.choice([1.5, -2.25e-7, 1e300, float(rng.randrange(100))])
             elif k == 2:
-                val = rng.choice(['', ' ', '  lead', 'trail  ', ' both ', 'say "hi" there', 'a  b', '{x} {y}', 'semi;colon', "it's"])
+                val = rng.choice(['', ' ', '  lead', 'trail  ', ' both ', 'say "hi" there', 'a  b', '{x} {y}', 'semi;colon', "it's", 'True', 'False'])
             else:
                 val = gen_chars(rng, rng.randrange(0, 16), lambda c: ord(c) < 128 and c not in '\n\r\x00#', lead_brace=True)
             if isinstance(val, str) and val.rstrip().endswith('\\'):
                 val = val.rstrip()[:-1] + '/'
             hdr.append([key, val])
+            # the same value handed over in another container with the same text form (a number taken out of a numpy
+            # array, a numpy string, a bool): "every header value equal to the text form of what was supplied"
+            if rng.random() < 0.35:
+                w = hdr_wrap_choice(rng, val)
+                if w:
+                    hdrwrap[key] = w
     # comments: mode and the block as it will appear in the file
     mode = rng.choice(['none', 'str', 'str#', 'list']) if not table_entry else 'table'
     if mode == 'none':
@@ -390,8 +397,46 @@ def gen_doc(rng, ntab=None, table_entry=False, zero_array=True):
         carg = ('#' + s) if mode == 'str#' else s
         block = carg if carg.startswith('#') else '# ' + carg
         block += '\n'
-    return {'comments': block, 'carg': carg, 'hdr': hdr, 'enums': enums, 'tables': tables,
+    return {'comments': block, 'carg': carg, 'hdr': hdr, 'hdrwrap': hdrwrap, 'enums': enums, 'tables': tables,
             'entry': 'table' if table_entry else 'ndarray'}
+
+
+def hdr_wrap_choice(rng, val):
+    """a container type for a header value whose '{0}'.format text is the text of the plain value"""
+    if isinstance(val, bool):
+        return None
+    if isinstance(val, int):
+        c = [t for t in ('int64', 'int32', 'int16') if np.iinfo(t).min <= val <= np.iinfo(t).max]
+        return rng.choice(c) if c else None
+    if isinstance(val, float):
+        c = ['float64']
+        if float(np.float32(val)) == val and '{0}'.format(np.float32(val)) == '{0}'.format(val):
+            c.append('float32')
+        return rng.choice(c)
+    if isinstance(val, str):
+        if val == 'True' or val == 'False':
+            return rng.choice(['bool', 'bool_'])
+        return 'str_'
+    return None
+
+
+def hdr_values(doc):
+    """the header dictionary as handed to the writer: plain Python values, or the tagged container of the same text"""
+    out = {}
+    for k, v in doc['hdr']:
+        w = doc.get('hdrwrap', {}).get(k)
+        if w in ('int64', 'int32', 'int16', 'float64', 'float32', 'str_'):
+            v2 = getattr(np, w)(v)
+        elif w == 'bool':
+            v2 = (v == 'True')
+        elif w == 'bool_':
+            v2 = np.bool_(v == 'True')
+        else:
+            v2 = v
+        if w and '{0}'.format(v2) != '{0}'.format(v):      # never change what the document says
+            v2 = v
+        out[k] = v2
+    return out
 
 
 def _needs_quote(s):
@@ -536,7 +581,7 @@ def real_roundtrip(ctx, doc):
             t = doc['tables'][0]
             tab = Table(arrs[0])
             if doc['hdr']:
-                tab.meta = dict((k, v) for k, v in doc['hdr'])
+                tab.meta = hdr_values(doc)
             tab.write(fn, format='yanny', tablename=t['name'])
             out['text'] = open(fn).read()
             back = Table.read(fn, format='yanny', tablename=t['name'])
@@ -546,7 +591,7 @@ def real_roundtrip(ctx, doc):
             out['symbols'] = _symbols(yanny(fn))
         else:
             enums = {e[0]: (e[1], e[2]) for e in doc['enums']} if doc['enums'] else None
-            hdr = dict((k, v) for k, v in doc['hdr']) if doc['hdr'] else None
+            hdr = hdr_values(doc) if doc['hdr'] else None
             if len(arrs) == 1 and bare_single(doc):
                 par = write_ndarray_to_yanny(fn, arrs[0], structnames=doc['tables'][0]['name'],
                                              enums=enums, hdr=hdr, comments=doc['carg'])
@@ -707,11 +752,13 @@ def _docs(ctx, docs, stream='doc'):
     out = drv(lines, parallel=True, chunk=400)
     for i, (d, r) in enumerate(zip(docs, real)):
         m, mp = out[2 * i], out[2 * i + 1]
-        case = {'stream': stream, 'doc': {k: d[k] for k in ('comments', 'carg', 'hdr', 'enums', 'tables', 'entry')}}
+        case = {'stream': stream, 'doc': {k: d[k] for k in ('comments', 'carg', 'hdr', 'hdrwrap', 'enums', 'tables', 'entry') if k in d}}
         ntr = bool(d['tables'] or d['hdr'])
         ctx.seen(case, ntr)
         ctx.count('%s:entry:%s' % (stream, d['entry']))
         ctx.count('%s:tables:%d' % (stream, len(d['tables'])))
+        for w in d.get('hdrwrap', {}).values():
+            ctx.count('%s:hdr-container:%s' % (stream, w))
         for t in d['tables']:
             ctx.count('%s:rows:%d' % (stream, len(t['rows'])))
             for c in t['cols']:
@@ -724,7 +771,7 @@ def _docs(ctx, docs, stream='doc'):
         if v is not None:
             ctx.count('%s:a:%s' % (stream, v[0]))
             small = shrink_doc(ctx, d, v[0]) if stream != 'd4' or len(json.dumps(d['tables'])) > 400 else d
-            ctx.violate(v[0], v[1], dict(case, doc={k: small[k] for k in ('comments', 'carg', 'hdr', 'enums', 'tables', 'entry')}))
+            ctx.violate(v[0], v[1], dict(case, doc={k: small[k] for k in ('comments', 'carg', 'hdr', 'hdrwrap', 'enums', 'tables', 'entry') if k in small}))
         else:
             ctx.count('%s:a:ok' % stream)
         if 'driver_error' in m or 'driver_error' in mp:
